@@ -301,7 +301,7 @@ def cos(x: Interval):
 
     yl = x.lo % twopi
     yh = x.hi % twopi
-    y = Interval(lo=yl, hi=yh)
+    # the reduced endpoints are not ordered when x wraps through a multiple of 2 pi
 
     cos_l = numpy_cos(yl)
     cos_h = numpy_cos(yh)
